@@ -117,12 +117,14 @@ struct Run {
         last_rot_mismatch = true;
         return r;
     }
-    std::size_t rotate(bool exp_block) {
+    // same: the rotation goes onto the NAME that is in use (e.g. names made from a time stamp, twice within a second): the
+    // output being closed is complete under that name when the call returns, the new one replaces it when it is closed
+    std::size_t rotate(bool exp_block, bool same = false) {
         std::size_t r;
         last_rot_mismatch = false;
         if (outkind == "file") {
             std::string old = cur_name;
-            std::string next = fresh();
+            std::string next = same ? cur_name : fresh();
             r = exp->rotate_output(next, exp_block);
             cur_name = next;
             json ev; // OUT is emitted by the caller after the C event
